@@ -81,6 +81,22 @@ check("C06",
       "covered at solver level in C16); KPM convergence is not modelled.",
       "TLA+ relation (embedding of the explicit twin) checked by TLC on paired real runs + reference validation of the twin",
       "DESIGN.md §4 C06")
+check("C07",
+      "Trace_SecondQuant.tla (EXTENDS LeastAction, Fock): the input Hamiltonian goes to TLC as expression TREES (what "
+      "the user typed); TLC builds its matrices on a truncated Fock space, derives the kept pattern from the selection "
+      "rule in Fock terms (same block; tuple form: number-conserving elements between equal H_0 entries; operator "
+      "masks: the power tuple t - s is not listed), runs the LeastAction reference solver on them and requires every "
+      "operator returned by the real block_diagonalize (H_tilde, U, U-dagger as NumberOrderedForm data) to have the "
+      "same matrix elements on all interior Fock states (vacuum included), with no coefficient pole reachable from an "
+      "interior state. Model families: anharmonic boson, two-level x boson as a 2x2 operator matrix, spin operator x "
+      "boson, fermion x boson, two fermions with hopping and pairing, ladder (charge basis), matrix-valued with full "
+      "diagonalisation, operator-valued masks; random rational coefficients.",
+      "Trusted: TLC/SANY 1.8.0, Json module, sympy evaluation of coefficients at integer occupations, the harness's "
+      "model builders (sympy expression and tree from the same harness tree). Comparison is order x bandwidth away from "
+      "the truncation edge; truncated dimension <= ~22, orders <= 2 (thorough 3); U-dagger U = 1 and U-dagger H U = "
+      "H_tilde 'within the operator algebra' are decided through equality with the reference on the window, not "
+      "symbolically.",
+      "TLA+ Fock-space model + LeastAction reference solver as trace-validation oracle (TLC)", "DESIGN.md §4 C07")
 check("C08",
       "Fock.tla gives boson / ladder / spin-1/2 / fermion (Jordan-Wigner) generators, number operators and functions of "
       "number operators their action on a truncated product Fock space over GF(p^2) (bosons in the unnormalised "
